@@ -4,7 +4,7 @@ import ast
 from sa.model import AnalysisError, norm, walk_no_nested
 from sa.roles import ReaderRoles, stream_ops
 from sa.interp import Interp, Frame
-from sa.values import AObj, AStream, Unk, concrete, is_concrete
+from sa.values import AList, AObj, AStream, Unk, concrete, is_concrete
 
 
 def linform(v, atoms):
@@ -164,7 +164,9 @@ def _run(P, rep, tier, prefix):
                                if not (last_chunk is not None and 'falsy' in last_chunk.facts) else 'bytes are given back at EOF')
             continue
         # not EOF: the last chunk contained the delimiter
-        wdata = [w.data['data'] for w in writes]
+        wdata = _pieces(res[0], path, st)
+        if wdata is None:
+            raise AnalysisError('the data returned by the read-ahead helper is not a concatenation of pieces (idiom not recognised)')
         if not seeks and not any(e.data.get('method') is None for e in reads):
             # line-reader idiom (readline): the result is complete only if the last
             # piece is known to end with the delimiter
@@ -337,6 +339,37 @@ def _run(P, rep, tier, prefix):
                       'miss bytes kept there' % sorted(buf))
     else:
         rep.ok(r6, 'reader attributes', 'only the stream, a line counter and the newline style are kept')
+
+
+def _pieces(val, path, st, depth=0):
+    """The ordered pieces the returned data is the concatenation of: writes to an internal byte stream whose
+    getvalue() is returned, items of a b''.join(list), or the operands of + / += chains."""
+    if depth > 40:
+        return None
+    if is_concrete(val) and isinstance(concrete(val), bytes):
+        return [] if not concrete(val) else [concrete(val)]
+    if isinstance(val, Unk) and val.src:
+        s_ = val.src
+        if s_[0] == 'getvalue':
+            return [e.data['data'] for e in path.events if e.kind == 'stream-write' and e.data['stream'] is s_[1]]
+        if getattr(val, 'joined', None):
+            sep, seq, items = val.joined
+            if not (is_concrete(sep) and concrete(sep) in (b'', '')):
+                return None
+            if isinstance(seq, AList) and seq.unknown:
+                return None
+            out = []
+            for it in items:
+                sub = _pieces(it, path, st, depth + 1)
+                out += sub if (sub is not None and not isinstance(it, Unk)) else [it]
+            return out
+        if s_[0] == 'binop' and s_[1] == 'Add':
+            a_ = _pieces(s_[2], path, st, depth + 1)
+            b_ = _pieces(s_[3], path, st, depth + 1)
+            return (a_ if a_ is not None else [s_[2]]) + (b_ if b_ is not None else [s_[3]])
+    if isinstance(val, Unk):
+        return [val]
+    return None
 
 
 def _read_result(path, read_ev):
